@@ -104,19 +104,37 @@ theorem initialised_set_cons (s : St) (n : Name) (c : CState) (p : Nat) (hh : He
 theorem commit_ok {s s' : St} {o : Outcome St} (h : commit s o = (s', Res.ok)) : o = .ok s' := by
   cases o <;> simp_all [commit]
 
+theorem validateContent_eq (p : Proposal) : validateContent p = validateBasic p := by
+  unfold validateContent validateCreate validateUpgrade validateToggle
+  cases p.kind <;> rfl
+
 theorem govExec_ok {s s' : St} {p : Proposal} (h : govExec s p = (s', Res.ok)) :
     validateBasic p = true ∧ handle s p = .ok s' := by
   unfold govExec at h
+  rw [validateContent_eq] at h
   by_cases hv : validateBasic p = true
   · simp [hv] at h; exact ⟨hv, commit_ok h⟩
   · simp [hv] at h
+
+theorem validateBasic_true {p : Proposal} (hv : validateBasic p = true) :
+    validName p.name = true ∧ (∃ c, p.cs = some c ∧ c.valid = true) ∧ (∃ k, p.ks = some k ∧ k.vb = true) := by
+  unfold validateBasic at hv
+  have h1 := (Bool.and_eq_true _ _).mp hv
+  have h2 := (Bool.and_eq_true _ _).mp h1.1
+  refine ⟨h2.1, ?_, ?_⟩
+  · cases hc : p.cs with
+    | none => have := h2.2; simp [hc] at this
+    | some c => exact ⟨c, rfl, by simpa [hc] using h2.2⟩
+  · cases hk : p.ks with
+    | none => have := h1.2; simp [hk] at this
+    | some k => exact ⟨k, rfl, by simpa [hk] using h1.2⟩
 
 /-- a create is accepted only under a valid, unused chain name that is not this chain's own name -/
 theorem create_only_fresh_valid (s s' : St) (p : Proposal) (hk : p.kind = .create)
     (h : govExec s p = (s', Res.ok)) : validName p.name = true ∧ p.name ≠ s.self ∧ getClient s p.name = none := by
   obtain ⟨hv, hh⟩ := govExec_ok h
   refine ⟨?_, ?_, ?_⟩
-  · unfold validateBasic at hv; exact ((Bool.and_eq_true _ _).mp hv).1
+  · exact (validateBasic_true hv).1
   · intro hself
     unfold handle at hh; rw [hk] at hh; simp [hself] at hh
   · unfold handle at hh; rw [hk] at hh; simp only at hh
@@ -126,18 +144,13 @@ theorem create_only_fresh_valid (s s' : St) (p : Proposal) (hk : p.kind = .creat
       | none => rfl
       | some c => simp [hself, hc] at hh
 
-/-- an accepted proposal carried a client state that passes `Validate()` and both states unpack -/
+/-- an accepted proposal carried a client state that passes `Validate()` and a consensus state that passes
+    `ValidateBasic()`; both unpack -/
 theorem accepted_wellformed (s s' : St) (p : Proposal) (h : govExec s p = (s', Res.ok)) :
-    ∃ c k, p.cs = some c ∧ p.ks = some k ∧ c.valid = true := by
-  obtain ⟨hv, hh⟩ := govExec_ok h
-  unfold validateBasic at hv
-  have hv := (Bool.and_eq_true _ _).mp hv
-  cases hc : p.cs with
-  | none => simp [hc] at hv
-  | some c =>
-    cases hks : p.ks with
-    | none => unfold handle at hh; cases hkind : p.kind <;> simp only [hkind, hc, hks] at hh <;> (repeat' (split at hh)) <;> simp at hh
-    | some k => exact ⟨c, k, rfl, rfl, by simpa [hc] using hv.2⟩
+    ∃ c k, p.cs = some c ∧ p.ks = some k ∧ c.valid = true ∧ k.vb = true := by
+  obtain ⟨hv, _⟩ := govExec_ok h
+  obtain ⟨_, ⟨c, hc, hcv⟩, ⟨k, hk, hkv⟩⟩ := validateBasic_true hv
+  exact ⟨c, k, hc, hk, hcv, hkv⟩
 
 /-- an upgrade keeps the client type -/
 theorem upgrade_keeps_type (s s' : St) (p : Proposal) (c : CState) (hk : p.kind = .upgrade) (hc : p.cs = some c)
@@ -643,9 +656,13 @@ theorem run_failures_noop (s : St) (ops : List Op) : (run s ops).1 = (run s (acc
 
 /-! ### completeness over all ordered type pairs -/
 
-theorem validateBasic_of (p : Proposal) (c : CState) (hc : p.cs = some c) (hn : validName p.name = true)
-    (hv : c.valid = true) : validateBasic p = true := by
-  simp [validateBasic, hc, hn, hv]
+theorem validateBasic_of (p : Proposal) (c : CState) (k : KState) (hc : p.cs = some c) (hks : p.ks = some k)
+    (hn : validName p.name = true) (hv : c.valid = true) (hkv : k.vb = true) : validateBasic p = true := by
+  simp [validateBasic, hc, hks, hn, hv, hkv]
+
+theorem validateContent_of (p : Proposal) (c : CState) (k : KState) (hc : p.cs = some c) (hks : p.ks = some k)
+    (hn : validName p.name = true) (hv : c.valid = true) (hkv : k.vb = true) : validateContent p = true := by
+  rw [validateContent_eq]; exact validateBasic_of p c k hc hks hn hv hkv
 
 theorem initClient_accepts (s : St) (n : Name) (c : CState) (k : KState)
     (hk : c.ty ≠ .tss → k.ty = c.ty ∧ c.initOk = true) : initClient s n c k = .ok (writeMeta s n c) := by
@@ -660,11 +677,11 @@ theorem initClient_accepts (s : St) (n : Name) (c : CState) (k : KState)
     consensus state of the new type, the new type's own initial checks pass) for an existing client of ANY other type
     is accepted.  (False for the unrepaired code whenever the old type is Tendermint — F10/1.) -/
 theorem toggle_accepts (s : St) (p : Proposal) (c old : CState) (k : KState) (hkind : p.kind = .toggle)
-    (hc : p.cs = some c) (hks : p.ks = some k) (hn : validName p.name = true) (hv : c.valid = true)
+    (hc : p.cs = some c) (hks : p.ks = some k) (hn : validName p.name = true) (hv : c.valid = true) (hkv : k.vb = true)
     (ho : getClient s p.name = some old) (hne : old.ty ≠ c.ty)
     (hk : c.ty ≠ .tss → k.ty = c.ty ∧ c.initOk = true) : ∃ s', govExec s p = (s', Res.ok) := by
   unfold govExec handle toggleClient
-  simp only [validateBasic_of p c hc hn hv, Bool.not_true, Bool.false_eq_true, ↓reduceIte, hkind, ho,
+  simp only [validateContent_of p c k hc hks hn hv hkv, Bool.not_true, Bool.false_eq_true, ↓reduceIte, hkind, ho,
     Option.isNone_some, hc, hks, hne, initClient_accepts _ _ _ _ hk]
   split <;> exact ⟨_, rfl⟩
 
@@ -689,7 +706,7 @@ theorem upgrade_other_type_rejected (s : St) (p : Proposal) (c old : CState) (hk
 /-- **upgrade, the 4 equal-type pairs** — accepted for a well-formed proposal (for BSC: the earliest stored consensus
     state, which `UpgradeState` inspects for pruning, is a BSC one) -/
 theorem upgrade_accepts (s : St) (p : Proposal) (c old : CState) (k : KState) (hkind : p.kind = .upgrade)
-    (hc : p.cs = some c) (hks : p.ks = some k) (hn : validName p.name = true) (hv : c.valid = true)
+    (hc : p.cs = some c) (hks : p.ks = some k) (hn : validName p.name = true) (hv : c.valid = true) (hkv : k.vb = true)
     (ho : getClient s p.name = some old) (he : old.ty = c.ty)
     (hk : c.ty ≠ .tss → k.ty = c.ty ∧ c.initOk = true)
     (hprune : c.ty = .bsc → ∀ e, minHeight (consHeights p.name s.kv) = some e →
@@ -715,7 +732,7 @@ theorem upgrade_accepts (s : St) (p : Proposal) (c old : CState) (k : KState) (h
     · exact ⟨s, rfl⟩
   obtain ⟨s1, hs1⟩ := hup
   unfold govExec handle upgradeClient
-  simp only [validateBasic_of p c hc hn hv, Bool.not_true, Bool.false_eq_true, ↓reduceIte, hkind, ho, hc, hks, he,
+  simp only [validateContent_of p c k hc hks hn hv hkv, Bool.not_true, Bool.false_eq_true, ↓reduceIte, hkind, ho, hc, hks, he,
     ne_eq, not_true_eq_false, hs1]
   split <;> exact ⟨_, rfl⟩
 
@@ -728,11 +745,11 @@ theorem create_own_name_rejected (s : St) (p : Proposal) (hkind : p.kind = .crea
   · simp [handle, hkind, hself, commit]
 
 theorem create_accepts (s : St) (p : Proposal) (c : CState) (k : KState) (hkind : p.kind = .create)
-    (hc : p.cs = some c) (hks : p.ks = some k) (hn : validName p.name = true) (hv : c.valid = true)
+    (hc : p.cs = some c) (hks : p.ks = some k) (hn : validName p.name = true) (hv : c.valid = true) (hkv : k.vb = true)
     (ho : getClient s p.name = none) (hself : p.name ≠ s.self)
     (hk : c.ty ≠ .tss → k.ty = c.ty ∧ c.initOk = true) : ∃ s', govExec s p = (s', Res.ok) := by
   unfold govExec handle createClient
-  simp only [validateBasic_of p c hc hn hv, Bool.not_true, Bool.false_eq_true, ↓reduceIte, hkind, ho, hself,
+  simp only [validateContent_of p c k hc hks hn hv hkv, Bool.not_true, Bool.false_eq_true, ↓reduceIte, hkind, ho, hself,
     Option.isSome_none, hc, hks, initClient_accepts _ _ _ _ hk]
   split <;> exact ⟨_, rfl⟩
 
@@ -790,7 +807,156 @@ example : getCons (run init [.prop { kind := .create, name := "abc", cs := some 
           = none := by decide
 example : get (run init [.prop { kind := .create, name := "abc", cs := some exTss, ks := some (exK .tm 5) }]).1 "abc" (.cons ⟨0, 0⟩)
           = none := by decide
+-- a Tendermint consensus state failing its own ValidateBasic: refused at submission, for every kind
+example : validateContent { kind := .toggle, name := "chain-b", cs := some (exTm 5), ks := some { exK .tm 90 with vb := false } } = false
+        ∧ (govExec (run init exHist).1 { kind := .toggle, name := "chain-b", cs := some (exTm 5), ks := some { exK .tm 90 with vb := false } }).2 = .err := by decide
 end Examples
+
+/-! ### an invalid proposal changes nothing (stated over the composition: submission stage, then handler) -/
+
+/-- the content fails the stateless stage: bad chain name, a client state that does not unpack or fails `Validate()`,
+    a consensus state that does not unpack or fails `ValidateBasic()` -/
+def ContentInvalid (p : Proposal) : Prop :=
+  validName p.name = false ∨ p.cs = none ∨ (∃ c, p.cs = some c ∧ c.valid = false) ∨
+  p.ks = none ∨ ∃ k, p.ks = some k ∧ k.vb = false
+
+theorem validateBasic_invalid {p : Proposal} (hi : ContentInvalid p) : validateBasic p = false := by
+  unfold validateBasic
+  rcases hi with h | h | ⟨c, hc, hv⟩ | h | ⟨k, hk, hv⟩
+  · simp [h]
+  · simp [h]
+  · simp [hc, hv]
+  · simp [h]
+  · simp [hk, hv]
+
+/-- **create**: invalid content is rejected at submission, nothing is touched -/
+theorem invalid_create_changes_nothing (s : St) (p : Proposal) (hk : p.kind = .create) (hi : ContentInvalid p) :
+    validateContent p = false ∧ govExec s p = (s, Res.err) := by
+  have hv : validateContent p = false := by
+    unfold validateContent; rw [hk]; exact validateBasic_invalid hi
+  exact ⟨hv, by simp [govExec, hv]⟩
+
+/-- **upgrade**: invalid content is rejected at submission, the existing client is untouched -/
+theorem invalid_upgrade_changes_nothing (s : St) (p : Proposal) (hk : p.kind = .upgrade) (hi : ContentInvalid p) :
+    validateContent p = false ∧ govExec s p = (s, Res.err) := by
+  have hv : validateContent p = false := by
+    unfold validateContent; rw [hk]; exact validateBasic_invalid hi
+  exact ⟨hv, by simp [govExec, hv]⟩
+
+/-- **toggle**: invalid content is rejected at submission — `ToggleClient`, which clears the old client store and runs
+    `Initialize` on the assumption that the client state was validated, is never reached; the working client stays -/
+theorem invalid_toggle_changes_nothing (s : St) (p : Proposal) (hk : p.kind = .toggle) (hi : ContentInvalid p) :
+    validateContent p = false ∧ govExec s p = (s, Res.err) := by
+  have hv : validateContent p = false := by
+    unfold validateContent; rw [hk]; exact validateBasic_invalid hi
+  exact ⟨hv, by simp [govExec, hv]⟩
+
+/-- the content passes submission but cannot be installed: the consensus state does not unpack, is of another type
+    than a non-TSS client state, or the type's own initial checks fail (BSC in every kind, the others on Initialize) -/
+def ExecInvalid (p : Proposal) : Prop :=
+  p.ks = none ∨ ∃ c k, p.cs = some c ∧ p.ks = some k ∧ c.ty ≠ .tss ∧
+    (k.ty ≠ c.ty ∨ (c.initOk = false ∧ (c.ty = .bsc ∨ p.kind ≠ .upgrade)))
+
+theorem initClient_invalid (s : St) (n : Name) (c : CState) (k : KState) (hne : c.ty ≠ .tss)
+    (h : k.ty ≠ c.ty ∨ c.initOk = false) : ∃ e, initClient s n c k = .err e := by
+  unfold initClient
+  cases hc : c.ty <;> simp only [hc] at hne h ⊢
+  case tss => exact absurd rfl hne
+  all_goals
+    rcases h with h | h
+    · exact ⟨"consensus-type", by simp [h]⟩
+    · by_cases hk : k.ty = c.ty
+      · rw [hc] at hk; exact ⟨"init", by simp [hk, h]⟩
+      · rw [hc] at hk; exact ⟨"consensus-type", by simp [hk]⟩
+
+theorem upgradeState_invalid (s : St) (n : Name) (c : CState) (k : KState) (hne : c.ty ≠ .tss)
+    (h : k.ty ≠ c.ty ∨ (c.initOk = false ∧ c.ty = .bsc)) : ∃ e, upgradeState s n c k = .err e := by
+  unfold upgradeState
+  cases hc : c.ty <;> simp only [hc] at hne h ⊢
+  case tss => exact absurd rfl hne
+  case tm =>
+    rcases h with h | ⟨_, h⟩
+    · exact ⟨"consensus-type", by simp [h]⟩
+    · cases h
+  case eth =>
+    rcases h with h | ⟨_, h⟩
+    · exact ⟨"consensus-type", by simp [h]⟩
+    · cases h
+  case bsc =>
+    rcases h with h | ⟨h, _⟩
+    · exact ⟨"consensus-type", by simp [h]⟩
+    · by_cases hk : k.ty = .bsc
+      · exact ⟨"init", by simp [hk, h]⟩
+      · exact ⟨"consensus-type", by simp [hk]⟩
+
+/-- **an invalid proposal changes nothing** — for every kind and every state: content that is invalid at the
+    stateless stage or at the execution stage ends as a failed proposal (never a panic) and the state — the previous
+    client, its consensus states, its auxiliary records, the relayers — is exactly what it was -/
+theorem invalid_proposal_changes_nothing (s : St) (p : Proposal) (hi : ContentInvalid p ∨ ExecInvalid p) :
+    govExec s p = (s, Res.err) := by
+  rcases hi with hi | hi
+  · cases hk : p.kind with
+    | create => exact (invalid_create_changes_nothing s p hk hi).2
+    | upgrade => exact (invalid_upgrade_changes_nothing s p hk hi).2
+    | toggle => exact (invalid_toggle_changes_nothing s p hk hi).2
+  · unfold govExec
+    split
+    · rfl
+    · have hcommit : ∀ e, commit s (Outcome.err e : Outcome St) = (s, Res.err) := fun _ => rfl
+      unfold handle
+      rcases hi with hks | ⟨c, k, hc, hks, hne, hbad⟩
+      · cases hk : p.kind <;> simp only [hk, hks]
+        · split
+          · exact hcommit _
+          · split
+            · exact hcommit _
+            · cases p.cs <;> exact hcommit _
+        · cases p.cs <;> exact hcommit _
+        · split
+          · exact hcommit _
+          · cases p.cs <;> exact hcommit _
+      · cases hk : p.kind <;> simp only [hk, hc, hks]
+        · -- create
+          split
+          · exact hcommit _
+          · split
+            · exact hcommit _
+            · unfold createClient
+              obtain ⟨e, he⟩ := initClient_invalid (set s p.name .cs (.cstate c)) p.name c k hne
+                (by rcases hbad with h | ⟨h, _⟩
+                    · exact Or.inl h
+                    · exact Or.inr h)
+              simp only [he]; exact hcommit _
+        · -- upgrade
+          unfold upgradeClient
+          cases ho : getClient s p.name with
+          | none => exact hcommit _
+          | some old =>
+            simp only
+            split
+            · exact hcommit _
+            · obtain ⟨e, he⟩ := upgradeState_invalid s p.name c k hne
+                (by rcases hbad with h | ⟨h, h2⟩
+                    · exact Or.inl h
+                    · rcases h2 with h2 | h2
+                      · exact Or.inr ⟨h, h2⟩
+                      · exact absurd hk h2)
+              simp only [he]; exact hcommit _
+        · -- toggle
+          split
+          · exact hcommit _
+          · unfold toggleClient
+            cases ho : getClient s p.name with
+            | none => exact hcommit _
+            | some old =>
+              simp only
+              split
+              · exact hcommit _
+              · obtain ⟨e, he⟩ := initClient_invalid (set (clearName s p.name) p.name .cs (.cstate c)) p.name c k hne
+                  (by rcases hbad with h | ⟨h, _⟩
+                      · exact Or.inl h
+                      · exact Or.inr h)
+                simp only [he]; exact hcommit _
 
 end TM.Lifecycle
 
